@@ -169,7 +169,7 @@ func raceC19(args []string) int {
 	deadline := time.Now().Add(budget)
 	done := 0
 	for i := 0; i < n && time.Now().Before(deadline); i++ {
-		switch i % 5 {
+		switch i % 6 {
 		case 0:
 			threads, buffer := 1+rng.Intn(6), rng.Intn(3)
 			ops := []int{0, 1, threads - 1, threads, threads + 3, 20}[rng.Intn(6)]
@@ -277,6 +277,11 @@ func raceC19(args []string) int {
 			}
 		case 4:
 			if msg := racePromiseAll(rng, i); msg != "" {
+				fmt.Println("FAILED: " + msg)
+				return 1
+			}
+		case 5:
+			if msg := racePromiseBreakWake(rng, i); msg != "" {
 				fmt.Println("FAILED: " + msg)
 				return 1
 			}
@@ -459,6 +464,56 @@ func racePromiseAll(rng *rand.Rand, i int) string {
 	}
 	if !mutable && !resets && nwins > 1 {
 		return fmt.Sprintf("%d Fulfill/Fail calls succeeded on an immutable promise", nwins)
+	}
+	return ""
+}
+
+// racePromiseBreakWake: Waits parked on an unset promise, then Fulfill, then Break taking the
+// mutex before the woken waiters do, then another Fulfill.  A woken Wait must re-check the
+// mailbox after re-acquiring the mutex (the `for` around `p.set.Wait()`): otherwise it reads the
+// emptied mailbox while holding the mutex and every later call on the promise deadlocks.  Every
+// call must return; a Wait returns the value of a successful Fulfill.
+func racePromiseBreakWake(rng *rand.Rand, i int) string {
+	early := 1 + rng.Intn(3)
+	recoverable := rng.Intn(2) == 0
+	fmt.Printf("workload %d: promise break-after-wake early-waits=%d recoverable=%v\n", i, early, recoverable)
+	p := concurrent.NewPromise(false, recoverable, false)
+	got := make(chan interface{}, early)
+	for k := 0; k < early; k++ {
+		go func() { got <- (<-p.Wait()).Value }()
+	}
+	time.Sleep(2 * time.Millisecond) // let the waiters park
+	done := make(chan string, 1)
+	go func() {
+		if err := p.Fulfill(1); err != nil {
+			done <- "first Fulfill of an unset promise was refused"
+			return
+		}
+		p.Break()
+		time.Sleep(3 * time.Millisecond)
+		if err := p.Fulfill(2); err != nil {
+			done <- "Fulfill of a broken (unset) promise was refused"
+			return
+		}
+		done <- ""
+	}()
+	select {
+	case msg := <-done:
+		if msg != "" {
+			return msg
+		}
+	case <-time.After(5 * time.Second):
+		return "Fulfill/Break/Fulfill after parked Waits did not return within 5s (deadlock)"
+	}
+	for k := 0; k < early; k++ {
+		select {
+		case v := <-got:
+			if v != 1 && v != 2 {
+				return fmt.Sprintf("a parked Wait returned %v, not the value of a successful Fulfill", v)
+			}
+		case <-time.After(5 * time.Second):
+			return "a Wait parked before Fulfill never returned (deadlock)"
+		}
 	}
 	return ""
 }
